@@ -88,6 +88,8 @@ def gen(rng, tier):
         sc['nbatches'] = rng.randint(1, 4)
     else:
         sc['n'] = rng.randint(1, 9)
+        if rng.random() < 0.015 and not any(x[0] == 'exp' for x in sg.walk(ast)):
+            sc['n'] = rng.choice([70, 130, 260])       # a long run (result tables, counters, buffers that switch strategy at a size)
         sc['data'] = world.gen_trace(rng, vars_, sc['n'])
         common.add_clock(rng, sc)
         if mode == 'on' and not pastify and sc['n'] >= 2 and rng.random() < 0.25:
